@@ -264,7 +264,10 @@ func (x *Executor) execInstr(fr *Frame, in ssa.Instruction, st *State, reach str
 		r := x.allocRef(st, "slice")
 		comp, _ := u.elemComp(et)
 		x.heapSet(st, comp, fmt.Sprintf("(store %s %s %s)", x.heapGet(st, comp), r, fmt.Sprintf("((as const (Array Int %s)) %s)", u.sortOf(et), u.zeroOf(et))))
-		fr.vals[t] = Val{T: u.define("mks", "Slice", fmt.Sprintf("(mk-slice %s 0 %s %s)", r, lv.T, cv.T)), Ty: t.Type()}
+		// the backing array is an object of this function: protected from unknown code until the
+		// slice (or a pointer into it) escapes
+		st.fresh[r] = types.NewArray(et, 0)
+		fr.vals[t] = Val{T: u.define("mks", "Slice", fmt.Sprintf("(mk-slice %s 0 %s %s)", r, lv.T, cv.T)), Ty: t.Type(), Taint: []string{r}}
 
 	case *ssa.MakeMap:
 		mt := t.Type().Underlying().(*types.Map)
